@@ -559,7 +559,7 @@ func pruneSessions(h *History) *History {
 	var mark func(ss []Step)
 	mark = func(ss []Step) {
 		for _, s := range ss {
-			if s.Op != "sleep" && s.Op != "par" {
+			if s.Op != "sleep" && s.Op != "par" && s.Op != "removerealm" && s.Op != "addrealm" {
 				used[s.S] = true
 			}
 			if s.M != nil {
@@ -622,7 +622,7 @@ func pruneSessions(h *History) *History {
 	fix = func(ss []Step) []Step {
 		out := make([]Step, len(ss))
 		for i, s := range ss {
-			if s.Op != "sleep" && s.Op != "par" {
+			if s.Op != "sleep" && s.Op != "par" && s.Op != "removerealm" && s.Op != "addrealm" {
 				s.S = remap[s.S]
 			}
 			if s.M != nil {
